@@ -448,7 +448,42 @@ static void run_rot(const Case& c) {
     print_data("out", g1->getData(), static_cast<size_t>(n) * n * nb);
 }
 
+// imp <id> <model> <n> ; extra = model parameters (see below) ; prints the table and library values used
+static void print_imp(const Impedance& z) {
+    std::cout << "ints " << z.nFreqs() << ' ' << z.size() << '\n' << "vals";
+    for (size_t i = 0; i < z.size(); i++) std::cout << ' ' << hx(z[i].real()) << ' ' << hx(z[i].imag());
+    std::cout << '\n';
+}
+static void run_imp(const Case& c) {
+    const std::string model = c.head[2];
+    size_t n = std::stoul(c.head[3]);
+    const auto& e = c.extra;
+    std::cout << "case " << c.id << '\n';
+    if (model == "const") { ConstImpedance z(n, e[0], impedance_t(e[1], e[2])); print_imp(z); }
+    else if (model == "free") {
+        float delta = e[1] / e[0] / (n - 1);       // f_max/f_rev/(n-1)
+        std::cout << "aux";
+        for (size_t i = 0; i <= n / 2; i++) std::cout << ' ' << hx(std::pow(i * delta, csrpower_t(1.0 / 3.0)));
+        std::cout << '\n';
+        FreeSpaceCSR z(n, e[0], e[1]); print_imp(z);
+    } else if (model == "wall") {
+        ResistiveWall z(n, e[0], e[1], e[2], e[3], e[4], e[5]); print_imp(z);
+    } else if (model == "pp") {
+        ParallelPlatesCSR z(n, e[0], e[1], e[2]); print_imp(z);
+    } else if (model == "coll") {
+        std::cout << "aux " << hx(static_cast<float>(Impedance::Z0 / 3.14159265358979323846 * std::log(static_cast<double>(e[1]) / static_cast<double>(e[2])))) << '\n';
+        CollimatorImpedance z(n, e[0], e[1], e[2]); print_imp(z);
+    } else if (model == "factory") {
+        // extra = fmax R_bend frev gap use_csr s xi coll_radius
+        std::stringstream sink; auto* old = std::cout.rdbuf(sink.rdbuf());
+        auto z = makeImpedance(n, nullptr, e[0], e[1], e[2], e[3], e[4] != 0, e[5], e[6], e[7]);
+        std::cout.rdbuf(old);
+        if (z == nullptr) std::cout << "txt none\n"; else print_imp(*z);
+    }
+}
+
 static bool dispatch_more(const Case& c) {
+    if (c.kind == "imp") { run_imp(c); return true; }
     if (c.kind == "rot") { run_rot(c); return true; }
     if (c.kind == "fptrack") { run_fptrack(c); return true; }
     if (c.kind == "dynrf") { run_dynrf(c); return true; }
